@@ -80,10 +80,10 @@ let iins_pos seps k =
 let model_line (toks : string list) : string =
   match toks with
   | "perm" :: "insert" :: w :: r :: p :: _ ->
-    hex_of_n (insert_rank (n_of_hex w) (n_of_hex r) (n_of_hex p))
-  | "perm" :: "delete" :: w :: r :: _ -> hex_of_n (delete_rank (n_of_hex w) (n_of_hex r))
+    hex_of_n (insert_rank (n_of_hex w) (n_of_hex r) (n_of_hex p)) ^ " st=1"   (* one word = one store *)
+  | "perm" :: "delete" :: w :: r :: _ -> hex_of_n (delete_rank (n_of_hex w) (n_of_hex r)) ^ " st=1"
   | "perm" :: "empty" :: w :: _ -> hex_of_n (get_empty_slot (n_of_hex w))
-  | "perm" :: "split" :: n :: _ -> hex_of_n (split_dest (n_of_hex n))
+  | "perm" :: "split" :: n :: _ -> hex_of_n (split_dest (n_of_hex n)) ^ " st=1"
   | "perm" :: "index" :: w :: r :: _ -> hex_of_n (get_index_of_rank (n_of_hex w) (n_of_hex r))
   | "perm" :: "cnk" :: w :: _ ->
     hex_of_n (get_cnk (n_of_hex w)) ^ " " ^ hex_of_n (get_lowest_key_pos (n_of_hex w))
@@ -160,14 +160,16 @@ let nlist_eq a b = List.length a = List.length b && List.for_all2 (fun x y -> N.
 let oracle (toks : string list) (impl : string list) : string option =
   try
     match toks, impl with
-    | "perm" :: "insert" :: w :: r :: p :: _, [w'] ->
+    | "perm" :: ("insert" | "delete" | "split") :: _, [_; st] when st <> "st=1" ->
+      Some "a permutation update was not published as a single word store"
+    | "perm" :: "insert" :: w :: r :: p :: _, w' :: _ ->
       let w = n_of_hex w and r = n_of_hex r and p = n_of_hex p and w' = n_of_hex w' in
       if not (perm_validb w && N.ltb (get_cnk w) (n_of_int 15) && N.leb r (get_cnk w)
               && N.ltb p (n_of_int 15) && not (List.exists (fun x -> N.eqb x p) (perm_list w))) then None else
       if not (nlist_eq (perm_list w') (insert_at (N.to_nat r) p (perm_list w)))
       then Some "decode(insert_rank) <> insert_at"
       else if not (perm_validb w') then Some "insert_rank result not a valid permutation" else None
-    | "perm" :: "delete" :: w :: r :: _, [w'] ->
+    | "perm" :: "delete" :: w :: r :: _, w' :: _ ->
       let w = n_of_hex w and r = n_of_hex r and w' = n_of_hex w' in
       if not (perm_validb w && N.ltb r (get_cnk w)) then None else
       if not (nlist_eq (perm_list w') (remove_at (N.to_nat r) (perm_list w)))
@@ -178,7 +180,7 @@ let oracle (toks : string list) (impl : string list) : string option =
       if not (perm_validb w) || not (N.ltb (get_cnk w) (n_of_int 15)) then None else
       if List.exists (fun x -> N.eqb x s) (perm_list w) then Some "get_empty_slot returned a slot in use"
       else if not (N.ltb s (n_of_int 15)) then Some "get_empty_slot out of range" else None
-    | "perm" :: "split" :: n :: _, [w'] ->
+    | "perm" :: "split" :: n :: _, w' :: _ ->
       let n = int_of_n (n_of_hex n) and w' = n_of_hex w' in
       if not (nlist_eq (perm_list w') (List.init n n_of_int)) then Some "split_dest not the identity" else None
     | "perm" :: "index" :: w :: r :: _, [s] ->
